@@ -78,7 +78,7 @@ def step : Step St := fun st fs impl =>
         | some d => some ((schedule fire c st.ka d (fuelFor c d)).getD [], { m with now := m.now + d })
         | none => none
       | ["read", k] => if readKinds.contains k then some ([Ev.read], { m with lastRead := m.now }) else none
-      | ["open"] => some ([Ev.openS], { m with streams := m.streams + 1, appSince := if m.streams = 0 then m.now else m.appSince })
+      | ["open"] => some ([Ev.openS], { m with streams := m.streams + 1, appSince := if m.streams = 0 && !c.permit then m.now else m.appSince })
       | ["done"] => if m.streams = 0 then none else some ([Ev.doneS], { m with streams := m.streams - 1 })
       | _ => none
     match ev with
